@@ -104,7 +104,7 @@ def cfg_tok(s, est0):
     return "%d,%d,%d,1" % (s.nstart, s.maxrt, 1 if est0 else 0)
 
 
-def gen_case(r, big=False, natural=False):
+def gen_case(r, big=False, natural=False, errs=False):
     """-> (prefix tokens, ops, meta) ; meta: in_scope (peer only answers what it received)"""
     nsess = r.choice([1, 1, 1, 1, 2, 2, 3])
     ss, est0s = [], []
@@ -126,6 +126,8 @@ def gen_case(r, big=False, natural=False):
         steps += 1
         k = r.randrange(nsess)
         s = ss[k]
+        if errs and r.random() < 0.12:
+            ops.append("E")                # the next socket write fails (whoever makes it)
         if burst:
             want_sub = subs < nsub
         else:
@@ -133,7 +135,7 @@ def gen_case(r, big=False, natural=False):
         if want_sub:
             subs += 1
             con = r.random() < 0.78
-            if s.dq and not natural and r.random() < 0.06:
+            if s.dq and not natural and not errs and r.random() < 0.06:
                 mid = r.choice(s.dq)[1]            # duplicate of a held id -> refused
                 con = con or s.est                 # (a NON on an established session is not held,
                                                    #  so it would really put the id on the wire twice)
@@ -230,7 +232,7 @@ def gen_case(r, big=False, natural=False):
                 s.ack(mid)
     prefix = ["ns", "1", str(nsess)] + [cfg_tok(s, e) for s, e in zip(ss, est0s)]
     meta = {"in_scope": in_scope, "nsess": nsess, "nstart": [s.nstart for s in ss], "nsub": subs,
-            "natural": natural}
+            "natural": natural, "errs": errs}
     return prefix, ops, meta
 
 
